@@ -815,3 +815,15 @@ Proof.
   assert (E : (MaxTimerHandshakes <? att) = true) by (apply N.ltb_lt; exact Ha).
   destruct a, pz; pcbn; rewrite E; pcbn; refine (conj eq_refl (conj eq_refl eq_refl)).
 Qed.
+
+(* A peer created with a persistent keepalive by a UAPI set operation on a
+   device that is already up initiates at once (handlePostConfig starts the
+   peer BEFORE SendKeepalive, which needs a running peer). *)
+Theorem configured_with_persistent_keepalive_initiates : forall p t j,
+  0 < p -> RekeyTimeout + sec <= t ->
+  snd (step (init_st p) (mkev t IConfigure j)) = [OInit].
+Proof.
+  intros p t j Hp Ht. unfold configure || idtac.
+  unfold step, mkev. cbn [e_t e_in e_jr e_jn step_in fst snd]. unfold configure. go.
+  all: try reflexivity; try lia'.
+Qed.
